@@ -652,6 +652,38 @@ func canonLeaf(c cv, kind pkind) string {
 		}
 		if strings.EqualFold(c.t.text, "calc") {
 			if lf, ok := linOfSum(c.kids); ok {
+				// a calc() that reduces to a single term is that plain value
+				var units []string
+				for u, v := range lf {
+					if v.Sign() != 0 {
+						units = append(units, u)
+					}
+				}
+				if len(units) <= 1 {
+					u := ""
+					if len(units) == 1 {
+						u = units[0]
+					} else {
+						for k := range lf {
+							if k > u {
+								u = k
+							}
+						}
+					}
+					r := lf[u]
+					if r == nil {
+						r = new(big.Rat)
+					}
+					switch {
+					case u == "":
+						return "N" + r.RatString()
+					case u == "%":
+						return "P" + r.RatString()
+					case r.Sign() == 0 && lengthUnits[u] && kind == pkLength:
+						return "N0"
+					}
+					return "D" + r.RatString() + u
+				}
 				return "calc{" + lf.key() + "}"
 			}
 		}
@@ -739,4 +771,197 @@ func sameCanon(a, b string) bool {
 		}
 	}
 	return true
+}
+
+// ---------------------------------------------------------------------------
+// property-specific canonical forms (CSS Transforms 1/2, CSS Backgrounds 3
+// box-shadow, CSS Fonts 4 font-family)
+
+func lenCanon(c cv) string { return canonLeaf(c, pkLength) }
+
+func splitArgs(kids []cv) [][]cv {
+	var out [][]cv
+	var cur []cv
+	for _, k := range kids {
+		if k.t.kind == tComma {
+			out = append(out, trimWS(cur))
+			cur = nil
+			continue
+		}
+		cur = append(cur, k)
+	}
+	return append(out, trimWS(cur))
+}
+
+func angleCanon(c cv) string {
+	if h, ok := hueOf(c); ok && c.t.kind != tIdent {
+		if c.t.kind == tNumber && h != 0 {
+			return lenCanon(c)
+		}
+		return fmt.Sprintf("A%.6f", h)
+	}
+	return lenCanon(c)
+}
+
+func canonTransform(value []cv) string {
+	var parts []string
+	for _, c := range noWS(value) {
+		if c.t.kind != tFunction {
+			parts = append(parts, canonLeaf(c, pkOpaque))
+			continue
+		}
+		name := strings.ToLower(c.t.text)
+		args := splitArgs(c.kids)
+		one := func(i int) (cv, bool) {
+			if i < len(args) && len(args[i]) == 1 {
+				return args[i][0], true
+			}
+			return cv{}, false
+		}
+		simple := true
+		for _, a := range args {
+			if len(a) != 1 {
+				simple = false
+			}
+		}
+		zero, oneN := "N0", "N1"
+		switch {
+		case !simple:
+			parts = append(parts, canonLeaf(c, pkLength))
+		case name == "translate" && (len(args) == 1 || len(args) == 2):
+			x, _ := one(0)
+			y := zero
+			if len(args) == 2 {
+				yy, _ := one(1)
+				y = lenCanon(yy)
+			}
+			parts = append(parts, "T2("+lenCanon(x)+","+y+")")
+		case name == "translatex" && len(args) == 1:
+			x, _ := one(0)
+			parts = append(parts, "T2("+lenCanon(x)+","+zero+")")
+		case name == "translatey" && len(args) == 1:
+			y, _ := one(0)
+			parts = append(parts, "T2("+zero+","+lenCanon(y)+")")
+		case name == "translatez" && len(args) == 1:
+			z, _ := one(0)
+			parts = append(parts, "T3("+zero+","+zero+","+lenCanon(z)+")")
+		case name == "translate3d" && len(args) == 3:
+			x, _ := one(0)
+			y, _ := one(1)
+			z, _ := one(2)
+			parts = append(parts, "T3("+lenCanon(x)+","+lenCanon(y)+","+lenCanon(z)+")")
+		case name == "scale" && (len(args) == 1 || len(args) == 2):
+			x, _ := one(0)
+			y := lenCanon(x)
+			if len(args) == 2 {
+				yy, _ := one(1)
+				y = lenCanon(yy)
+			}
+			parts = append(parts, "S2("+lenCanon(x)+","+y+")")
+		case name == "scalex" && len(args) == 1:
+			x, _ := one(0)
+			parts = append(parts, "S2("+lenCanon(x)+","+oneN+")")
+		case name == "scaley" && len(args) == 1:
+			y, _ := one(0)
+			parts = append(parts, "S2("+oneN+","+lenCanon(y)+")")
+		case name == "scalez" && len(args) == 1:
+			z, _ := one(0)
+			parts = append(parts, "S3("+oneN+","+oneN+","+lenCanon(z)+")")
+		case name == "scale3d" && len(args) == 3:
+			x, _ := one(0)
+			y, _ := one(1)
+			z, _ := one(2)
+			parts = append(parts, "S3("+lenCanon(x)+","+lenCanon(y)+","+lenCanon(z)+")")
+		case (name == "rotate" || name == "rotatez") && len(args) == 1:
+			a, _ := one(0)
+			tag := "R2("
+			if name == "rotatez" {
+				tag = "R3("
+			}
+			parts = append(parts, tag+angleCanon(a)+")")
+		default:
+			parts = append(parts, canonLeaf(c, pkLength))
+		}
+	}
+	return strings.Join(parts, " ")
+}
+
+func canonShadow(value []cv) string {
+	var shadows []string
+	for _, sh := range splitArgs(value) {
+		var lens []string
+		color := ""
+		inset := false
+		bad := false
+		for _, c := range noWS(sh) {
+			switch {
+			case c.t.kind == tIdent && strings.EqualFold(c.t.text, "inset"):
+				inset = true
+			case c.t.kind == tNumber || c.t.kind == tDimension || (c.t.kind == tFunction && strings.EqualFold(c.t.text, "calc")):
+				lens = append(lens, lenCanon(c))
+			default:
+				if _, ok := colorOfCV(c); ok && color == "" {
+					color = canonLeaf(c, pkColor)
+				} else if c.t.kind == tIdent && color == "" {
+					color = canonLeaf(c, pkColor)
+				} else {
+					bad = true
+				}
+			}
+		}
+		if bad || len(lens) < 2 || len(lens) > 4 {
+			shadows = append(shadows, canonList(sh, pkColor))
+			continue
+		}
+		for len(lens) < 4 {
+			lens = append(lens, "N0")
+		}
+		shadows = append(shadows, fmt.Sprintf("shadow(inset=%v,%s,%s)", inset, strings.Join(lens, ","), color))
+	}
+	return strings.Join(shadows, " , ")
+}
+
+var genericFamilies = map[string]bool{"serif": true, "sans-serif": true, "monospace": true, "cursive": true, "fantasy": true, "system-ui": true,
+	"ui-serif": true, "ui-sans-serif": true, "ui-monospace": true, "ui-rounded": true, "emoji": true, "math": true, "fangsong": true,
+	"inherit": true, "initial": true, "unset": true, "revert": true, "revert-layer": true, "default": true}
+
+func canonFontFamily(value []cv) string {
+	var fams []string
+	for _, f := range splitArgs(value) {
+		l := noWS(f)
+		if len(l) == 1 && l[0].t.kind == tString {
+			fams = append(fams, "fam:"+l[0].t.text)
+			continue
+		}
+		allIdent := len(l) > 0
+		var words []string
+		for _, c := range l {
+			if c.t.kind != tIdent {
+				allIdent = false
+			}
+			words = append(words, c.t.text)
+		}
+		if !allIdent {
+			fams = append(fams, canonList(f, pkOpaque))
+			continue
+		}
+		if len(words) == 1 && genericFamilies[strings.ToLower(words[0])] {
+			fams = append(fams, "generic:"+strings.ToLower(words[0]))
+			continue
+		}
+		fams = append(fams, "fam:"+strings.Join(words, " "))
+	}
+	return strings.Join(fams, " , ")
+}
+
+func canonValue(name string, value []cv) string {
+	switch name {
+	case "transform":
+		return canonTransform(value)
+	case "box-shadow":
+		return canonShadow(value)
+	case "font-family":
+		return canonFontFamily(value)
+	}
+	return canonList(value, kindOfProp(name))
 }
